@@ -248,14 +248,14 @@ SStep(s, c) ==
     [] st = "ks0"    -> IF NameB(c) THEN RS("ksName", sk, FALSE) ELSE RUnspec
     [] st = "ksName" -> IF NameB(c) THEN RS(st, sk, FALSE) ELSE Between("oColon", c, sk, FALSE)
     \* ---- bare rule name
+    \* (blanks, tabs and - in a multi-line annotation - line breaks may stand between the name and its colon, as after a quoted name)
     [] st = "rbare"  -> (CASE RuleB(c) -> RS(st, sk, FALSE)
-                          [] c = 32  -> RS("rbareSp", sk, FALSE)
+                          [] RBlank(c, sk) -> RS("rbareSp", sk, FALSE)
                           [] c = 58  -> RS("rValue", sk, FALSE)
                           [] Nl(c)   -> RDead
                           [] OTHER   -> RUnspec)
-    [] st = "rbareSp" -> (CASE c = 32 -> RS(st, sk, FALSE)
+    [] st = "rbareSp" -> (CASE RBlank(c, sk) -> RS(st, sk, FALSE)
                            [] c = 58 -> RS("rValue", sk, FALSE)
-                           [] c = 9  -> RUnspec
                            [] OTHER  -> RDead)
     \* ---- annotations
     [] st = "slash1" -> (CASE c = 47 -> RS("iaStart", Append(Pop(sk), <<"IA", Ret(Top(sk))>>), FALSE)
